@@ -141,8 +141,8 @@ func c02FreeIP(p *chk.Prog, r *chk.Report) {
 			g.Dominated(rt, g.GPat(false, "AV && ipConfusesBuggyFirmwares(POS.IP)", chk.H("AV", isParam(f, "avoidBuggyIPs")), chk.H("POS", pos))),
 			"", "an address can be returned without the .0/.255 filter of an avoid-buggy pool")
 		x.Check("getIPFromCIDR:return:checkSharing", rt.Pos(),
-			g.Dominated(rt, g.GErrNil(true, "RECV.checkSharing(SVC, POS.IP.String(), PORTS, SK)", chk.H("POS", pos), chk.H("SVC", isParam(f, "svc")),
-				chk.H("PORTS", isParam(f, "ports")), chk.H("SK", definedBy(g, "&key{sharing: A, backend: B}", chk.H("A", isParam(f, "sharingKey")), chk.H("B", isParam(f, "backendKey")))))),
+			g.Dominated(rt, g.GErrNil(true, "RECV.checkSharing(SVC, POS.IP.String(), PORTS, SK)", chk.H("POS", pos), chk.H("SVC", crossParam(p, f, "svc", "svcKey")),
+				chk.H("PORTS", crossParam(p, f, "ports")), chk.H("SK", sharingKeyOf(p, f)))),
 			"", "an address can be returned without a successful checkSharing for the requesting service")
 	}
 	x.Check("getIPFromCIDR:has-address-return", f.Pos(), n > 0, "", "no address return found")
@@ -684,5 +684,52 @@ func c02FamilyChanged(p *chk.Prog, r *chk.Report) {
 			ok = !cg.FeasibleEscape(e, cb.ContainsPat("RECV.clearServiceState(K, S)", chk.H("K", key), chk.H("S", svc)), nil, nil)
 		}
 		x.Check("converge:family-change-clears", cb.Pos(), ok, "", "a family change does not clear the held addresses")
+	}
+}
+
+// sharingKeyOf: the expression is the (sharing, backend) key of the request being served: &key{sharing: sharingKey,
+// backend: backendKey} built from the function's own parameters, or a *key parameter for which every caller passes such
+// a key built from its own sharingKey / backendKey parameters (the key hoisted out of the per-CIDR helper).
+func sharingKeyOf(p *chk.Prog, f *chk.Fn) func(ast.Expr) bool {
+	own := func(fn *chk.Fn) func(ast.Expr) bool {
+		g := fn.Graph()
+		return func(e ast.Expr) bool {
+			if fn.ParamNamed("sharingKey") == nil || fn.ParamNamed("backendKey") == nil {
+				return false
+			}
+			return definedBy(g, "&key{sharing: A, backend: B}", chk.H("A", isParam(fn, "sharingKey")), chk.H("B", isParam(fn, "backendKey")))(e)
+		}
+	}
+	return func(e ast.Expr) bool {
+		if own(f)(e) {
+			return true
+		}
+		if orig := paramOrigins(p, f, e); len(orig) > 0 {
+			all := true
+			for _, o := range orig {
+				if !own(o.Fn)(o.Arg) {
+					all = false
+				}
+			}
+			if all {
+				return true
+			}
+		}
+		// the key inside a request object that was built by the callers: every place it comes from is a key literal
+		// made of that function's own sharingKey / backendKey parameters
+		leaves := crossLeaves(p, f, e, nil, 0)
+		if len(leaves) == 0 {
+			return false
+		}
+		for _, l := range leaves {
+			if l.E == nil || l.Fn.ParamNamed("sharingKey") == nil || l.Fn.ParamNamed("backendKey") == nil {
+				return false
+			}
+			if l.Fn.MatchWith("key{sharing: A, backend: B}", l.E, chk.H("A", isParam(l.Fn, "sharingKey")), chk.H("B", isParam(l.Fn, "backendKey"))) == nil &&
+				l.Fn.MatchWith("&key{sharing: A, backend: B}", l.E, chk.H("A", isParam(l.Fn, "sharingKey")), chk.H("B", isParam(l.Fn, "backendKey"))) == nil {
+				return false
+			}
+		}
+		return true
 	}
 }
